@@ -199,7 +199,23 @@ class CircuitGraph(object):
             if i not in rejects:
                 cloops.append(loop)
 
-        return cloops
+        # The chordless cycles of K4 or of a wheel (Wheatstone bridge,
+        # bridged T) include the outer face.  Drop the loops that are
+        # combinations (mod 2, over the edges) of shorter ones.
+        basis = {}
+        keep = []
+        for loop in sorted(cloops, key=len):
+            row = set(tuple(sorted((loop[m - 1], loop[m])))
+                      for m in range(len(loop)))
+            while row:
+                pivot = min(row)
+                if pivot not in basis:
+                    basis[pivot] = row
+                    keep.append(loop)
+                    break
+                row = row ^ basis[pivot]
+
+        return [loop for loop in cloops if loop in keep]
 
     def cut_sets(self):
         """Return list of cut sets.  Each cut set is a set of nodes describing
